@@ -253,7 +253,8 @@ void reb_integrator_janus_part2(struct reb_simulation* r){
 }
 
 void reb_integrator_janus_synchronize(struct reb_simulation* r){
-    if (r->ri_janus.N_allocated==r->N){
+    if (r->ri_janus.N_allocated==r->N && r->ri_janus.recalculate_integer_coordinates_this_timestep==0){
+        // The integer coordinates are authoritative only while they describe the current particles.
         to_double(r->particles, r->ri_janus.p_int, r->N, r->ri_janus.scale_pos, r->ri_janus.scale_vel); 
     }
 }
